@@ -14,12 +14,13 @@ import (
 	"go/printer"
 	"go/token"
 	"regexp"
+	"sort"
 	"strings"
 
 	"verif/harness/xlib"
 )
 
-var words = regexp.MustCompile(`\b(SyncUpdateState|SetState|State|FinishBuild|WaitForBuild|LogBuildResult|LogBuildError|addPendingBuild|taskDone|TaskDone|Stop|queueAsync|queueTargetAsync|queueTarget|queueResolvedTarget|AddInt64|numPending|numDone|close|pendingActions|pendingParses|closeOnce|buildTarget|Build|IsBuilt|NeedBuild|asyncError|resolveDependencies|DeclaredDependencies|Dependencies|errStop|finishedBuilding|waitOnChan|CompareAndSwapInt32|StoreInt32|LoadInt32|KeepGoing|checkForCycles|cycleDetector|completeAction|pendingPackages|packageWaits|pendingTargets|waitOnChan|AddOrGet|PackageParsed|ParseFailed|IsFailure|FailedTargets|GetOrSet|Parses|parse\.Parse)\b`)
+var words = regexp.MustCompile(`\b(SyncUpdateState|SetState|State|FinishBuild|WaitForBuild|LogBuildResult|LogBuildError|addPendingBuild|taskDone|TaskDone|Stop|queueAsync|queueTargetAsync|queueTarget|queueResolvedTarget|AddInt64|numPending|numDone|close|pendingActions|pendingParses|closeOnce|buildTarget|Build|IsBuilt|NeedBuild|asyncError|resolveDependencies|DeclaredDependencies|Dependencies|errStop|finishedBuilding|waitOnChan|CompareAndSwapInt32|StoreInt32|LoadInt32|KeepGoing|checkForCycles|cycleDetector|completeAction|pendingPackages|packageWaits|pendingTargets|waitOnChan|AddOrGet|PackageParsed|ParseFailed|IsFailure|FailedTargets|GetOrSet|Parses|parse\.Parse|TargetFailed)\b`)
 
 type sk struct {
 	f *xlib.File
@@ -292,6 +293,316 @@ func skeleton(f *xlib.File, name string) string {
 	return s.block(fn.Body, false)
 }
 
+
+// optFunc is File.Func for a function that may be absent (older trees): nil instead of FACTS-UNREADABLE.
+func optFunc(f *xlib.File, recv, name string) *ast.FuncDecl {
+	for _, d := range f.AST.Decls {
+		fd, ok := d.(*ast.FuncDecl)
+		if !ok || fd.Name.Name != name || fd.Body == nil {
+			continue
+		}
+		r := ""
+		if fd.Recv != nil && len(fd.Recv.List) > 0 {
+			t := fd.Recv.List[0].Type
+			if s, ok := t.(*ast.StarExpr); ok {
+				t = s.X
+			}
+			if id, ok := t.(*ast.Ident); ok {
+				r = id.Name
+			}
+		}
+		if r == recv {
+			return fd
+		}
+	}
+	return nil
+}
+
+// walkGuarded visits every simple statement of a body together with the conditions it is nested under: an `if`
+// contributes its condition (init included) to the then-branch and the negated condition to the else-branch, a
+// `select` the communication of the clause ("default" with the other communications for the default clause).
+// Loops, blocks and switches contribute nothing.
+type guard struct {
+	init ast.Stmt
+	cond ast.Expr // nil for a select clause
+	neg  bool
+	comm string
+}
+
+func walkGuarded(list []ast.Stmt, gs []guard, visit func(st ast.Stmt, gs []guard)) {
+	for _, st := range list {
+		switch t := st.(type) {
+		case *ast.IfStmt:
+			then := append(append([]guard{}, gs...), guard{init: t.Init, cond: t.Cond})
+			walkGuarded(t.Body.List, then, visit)
+			if t.Else != nil {
+				els := append(append([]guard{}, gs...), guard{init: t.Init, cond: t.Cond, neg: true})
+				switch e := t.Else.(type) {
+				case *ast.BlockStmt:
+					walkGuarded(e.List, els, visit)
+				default:
+					walkGuarded([]ast.Stmt{e}, els, visit)
+				}
+			}
+		case *ast.ForStmt:
+			walkGuarded(t.Body.List, gs, visit)
+		case *ast.RangeStmt:
+			walkGuarded(t.Body.List, gs, visit)
+		case *ast.BlockStmt:
+			walkGuarded(t.List, gs, visit)
+		case *ast.LabeledStmt:
+			walkGuarded([]ast.Stmt{t.Stmt}, gs, visit)
+		case *ast.SwitchStmt:
+			for _, c := range t.Body.List {
+				walkGuarded(c.(*ast.CaseClause).Body, gs, visit)
+			}
+		case *ast.SelectStmt:
+			var comms []string
+			for _, c := range t.Body.List {
+				if cc := c.(*ast.CommClause); cc.Comm != nil {
+					comms = append(comms, "?")
+				}
+			}
+			for _, c := range t.Body.List {
+				cc := c.(*ast.CommClause)
+				g := guard{}
+				if cc.Comm == nil {
+					g.comm = "default"
+				} else {
+					g.comm = "comm"
+				}
+				g.init = cc.Comm
+				walkGuarded(cc.Body, append(append([]guard{}, gs...), g), visit)
+			}
+			_ = comms
+		default:
+			visit(st, gs)
+		}
+	}
+}
+
+// activeSetFacts reads forwardResults' bookkeeping of the targets being worked on (it arms the idle-time cycle
+// check only while that set is empty): the key type of the set, under which conditions a result adds to / deletes
+// from it and by which key, and under which condition the cycle check is started.
+func activeSetFacts(st *xlib.File) []string {
+	fn := st.Func("BuildState.forwardResults")
+	s := &sk{f: st}
+	var set *ast.Object
+	key := ""
+	ast.Inspect(fn.Body, func(n ast.Node) bool {
+		a, ok := n.(*ast.AssignStmt)
+		if !ok || set != nil || len(a.Lhs) != 1 || len(a.Rhs) != 1 {
+			return true
+		}
+		if cl, ok := a.Rhs[0].(*ast.CompositeLit); ok {
+			if mt, ok := cl.Type.(*ast.MapType); ok {
+				if id, ok := a.Lhs[0].(*ast.Ident); ok && id.Obj != nil {
+					set, key = id.Obj, s.src(mt.Key)
+				}
+			}
+		}
+		return true
+	})
+	if set == nil {
+		xlib.Unreadable("forwardResults: no map of active targets")
+	}
+	isSet := func(e ast.Expr) bool { id, ok := e.(*ast.Ident); return ok && id.Obj == set }
+	// what an expression denotes: the result's label, the result's target pointer, or something else
+	fromTarget := map[*ast.Object]bool{}
+	ast.Inspect(fn.Body, func(n ast.Node) bool {
+		if a, ok := n.(*ast.AssignStmt); ok && len(a.Lhs) == 1 && len(a.Rhs) == 1 {
+			if sel, ok := a.Rhs[0].(*ast.SelectorExpr); ok && sel.Sel.Name == "target" {
+				if id, ok := a.Lhs[0].(*ast.Ident); ok && id.Obj != nil {
+					fromTarget[id.Obj] = true
+				}
+			}
+		}
+		return true
+	})
+	denotes := func(e ast.Expr) string {
+		switch t := e.(type) {
+		case *ast.SelectorExpr:
+			if t.Sel.Name == "Label" || t.Sel.Name == "target" {
+				return "." + t.Sel.Name
+			}
+		case *ast.Ident:
+			if t.Obj != nil && fromTarget[t.Obj] {
+				return ".target"
+			}
+		}
+		return s.src(e)
+	}
+	norm := func(g guard) string {
+		if g.cond == nil {
+			return g.comm
+		}
+		neg := ""
+		if g.neg {
+			neg = "!"
+		}
+		c := s.src(g.cond)
+		if strings.HasSuffix(c, ".Status.IsActive()") {
+			return neg + "IsActive"
+		}
+		if b, ok := g.cond.(*ast.BinaryExpr); ok {
+			if id, ok := b.Y.(*ast.Ident); ok && id.Name == "nil" && denotes(b.X) == ".target" && (b.Op == token.NEQ || b.Op == token.EQL) {
+				if (b.Op == token.NEQ) != g.neg {
+					return "target!=nil"
+				}
+				return "target==nil"
+			}
+			if call, ok := b.X.(*ast.CallExpr); ok && len(call.Args) == 1 && isSet(call.Args[0]) && s.src(call.Fun) == "len" && s.src(b.Y) == "0" && b.Op == token.EQL {
+				return neg + "empty"
+			}
+		}
+		return neg + "(" + c + ")"
+	}
+	gstr := func(gs []guard) string {
+		p := make([]string, len(gs))
+		for i, g := range gs {
+			p[i] = norm(g)
+		}
+		sort.Strings(p)
+		return strings.Join(p, ",")
+	}
+	facts := []string{"key:" + key}
+	walkGuarded(fn.Body.List, nil, func(stm ast.Stmt, gs []guard) {
+		switch t := stm.(type) {
+		case *ast.AssignStmt:
+			if len(t.Lhs) == 1 {
+				if ix, ok := t.Lhs[0].(*ast.IndexExpr); ok && isSet(ix.X) {
+					facts = append(facts, "add:"+gstr(gs)+":"+denotes(ix.Index))
+				}
+			}
+		case *ast.ExprStmt:
+			if c, ok := t.X.(*ast.CallExpr); ok && s.src(c.Fun) == "delete" && len(c.Args) == 2 && isSet(c.Args[0]) {
+				facts = append(facts, "del:"+gstr(gs)+":"+denotes(c.Args[1]))
+			}
+		case *ast.GoStmt:
+			if strings.HasSuffix(s.src(t.Call.Fun), ".checkForCycles") {
+				facts = append(facts, "check:"+gstr(gs))
+			}
+		}
+	})
+	return facts
+}
+
+// wakeFacts: who closes the `pendingTargets` channel of a target (what wakes WaitForBuiltTarget) and under which
+// condition; what build.Build does after it has put a target into the Failed state; and when WaitForBuiltTarget
+// returns without waiting.
+func wakeFacts(st, bs *xlib.File) []string {
+	var facts []string
+	s := &sk{f: st}
+	for _, d := range st.AST.Decls {
+		fd, ok := d.(*ast.FuncDecl)
+		if !ok || fd.Body == nil {
+			continue
+		}
+		// channels obtained from pendingTargets.Get(<x>.Label) / Get(<label parameter>)
+		chans := map[*ast.Object]bool{}
+		ast.Inspect(fd.Body, func(n ast.Node) bool {
+			if a, ok := n.(*ast.AssignStmt); ok && len(a.Lhs) == 1 && len(a.Rhs) == 1 {
+				if c, ok := a.Rhs[0].(*ast.CallExpr); ok && strings.HasSuffix(s.src(c.Fun), ".pendingTargets.Get") {
+					if id, ok := a.Lhs[0].(*ast.Ident); ok && id.Obj != nil {
+						chans[id.Obj] = true
+					}
+				}
+			}
+			return true
+		})
+		if len(chans) == 0 {
+			continue
+		}
+		isCh := func(e ast.Expr) bool { id, ok := e.(*ast.Ident); return ok && id.Obj != nil && chans[id.Obj] }
+		walkGuarded(fd.Body.List, nil, func(stm ast.Stmt, gs []guard) {
+			es, ok := stm.(*ast.ExprStmt)
+			if !ok {
+				return
+			}
+			c, ok := es.X.(*ast.CallExpr)
+			if !ok || s.src(c.Fun) != "close" || len(c.Args) != 1 || !isCh(c.Args[0]) {
+				return
+			}
+			var p []string
+			for _, g := range gs {
+				if g.cond == nil {
+					if g.comm == "default" {
+						p = append(p, "unless-closed")
+					} else {
+						p = append(p, "comm")
+					}
+					continue
+				}
+				if b, ok := g.cond.(*ast.BinaryExpr); ok && isCh(b.X) && b.Op == token.NEQ && !g.neg {
+					continue // `ch != nil`: there is a channel to close
+				}
+				txt := s.src(g.cond)
+				// parameters by position
+				for i, fl := range fd.Type.Params.List {
+					for _, nm := range fl.Names {
+						txt = regexp.MustCompile(`\b`+regexp.QuoteMeta(nm.Name)+`\b`).ReplaceAllString(txt, fmt.Sprintf("p%d", i))
+					}
+				}
+				if g.neg {
+					txt = "!(" + txt + ")"
+				}
+				p = append(p, txt)
+			}
+			facts = append(facts, "close:"+fd.Name.Name+":"+strings.Join(p, ","))
+		})
+	}
+	// build.Build: the calls on the state / the target that follow SetState(core.Failed) in its block
+	{
+		fn := bs.Func("Build")
+		b := &sk{f: bs}
+		found := false
+		ast.Inspect(fn.Body, func(n ast.Node) bool {
+			blk, ok := n.(*ast.BlockStmt)
+			if !ok || found {
+				return true
+			}
+			for i, stm := range blk.List {
+				if strings.HasSuffix(b.src(stm), ".SetState(core.Failed)") {
+					found = true
+					var calls []string
+					for _, later := range blk.List[i+1:] {
+						if es, ok := later.(*ast.ExprStmt); ok {
+							if c, ok := es.X.(*ast.CallExpr); ok {
+								if sel, ok := c.Fun.(*ast.SelectorExpr); ok {
+									calls = append(calls, sel.Sel.Name)
+								}
+							}
+						}
+					}
+					facts = append(facts, "failed-then:"+strings.Join(calls, ","))
+				}
+			}
+			return true
+		})
+		if !found {
+			xlib.Unreadable("build.Build: no SetState(core.Failed)")
+		}
+	}
+	// WaitForBuiltTarget: the condition of the leading `if … { return t }`
+	{
+		fn := st.Func("BuildState.WaitForBuiltTarget")
+		if len(fn.Body.List) == 0 {
+			xlib.Unreadable("WaitForBuiltTarget: empty")
+		}
+		first, ok := fn.Body.List[0].(*ast.IfStmt)
+		if !ok || first.Init == nil {
+			xlib.Unreadable("WaitForBuiltTarget: does not start with `if t := …; cond { return t }`")
+		}
+		v := ""
+		if a, ok := first.Init.(*ast.AssignStmt); ok && len(a.Lhs) == 1 {
+			v = s.src(a.Lhs[0])
+		}
+		cond := regexp.MustCompile(`\b`+regexp.QuoteMeta(v)+`\b`).ReplaceAllString(s.src(first.Cond), "t")
+		facts = append(facts, "return-at-once:"+cond)
+	}
+	return facts
+}
+
 func main() {
 	bt := xlib.Parse("src/core/build_target.go")
 	out := xlib.NewOut("C04", bt.Path, "src/core/state.go", "src/build/build_step.go", "src/plz/plz.go", "src/output/targets.go")
@@ -400,6 +711,24 @@ func main() {
 	for _, m := range []string{"addPendingParse", "LogParseResult", "SyncParsePackage", "WaitForPackage"} {
 		out.Def("sk_"+m, "String", xlib.LeanStr(skeleton(st, "BuildState."+m)))
 	}
+	// C05 liveness mechanisms outside the task counting: the set of active targets that arms the cycle check, and the
+	// wake-up of the goroutines waiting for a target (subincludes) on success AND on failure
+	for _, m := range []string{"LogBuildResult", "WaitForBuiltTarget"} {
+		out.Def("sk_"+m, "String", xlib.LeanStr(skeleton(st, "BuildState."+m)))
+	}
+	if optFunc(st, "BuildState", "TargetFailed") != nil {
+		out.Def("sk_TargetFailed", "String", xlib.LeanStr(skeleton(st, "BuildState.TargetFailed")))
+	} else {
+		out.Def("sk_TargetFailed", "String", xlib.LeanStr("absent"))
+	}
+	{
+		saved := words
+		words = regexp.MustCompile(`\b(IsActive|delete|len|internalResults|checkForCycles|cycleCheckDuration|Reset|target|Label)\b`)
+		out.Def("sk_forwardResults", "String", xlib.LeanStr(skeleton(xlib.Parse("src/core/state.go"), "BuildState.forwardResults")))
+		words = saved
+	}
+	out.Def("activeSet", "List String", xlib.LeanStrList(activeSetFacts(xlib.Parse("src/core/state.go"))))
+	out.Def("wakeFacts", "List String", xlib.LeanStrList(wakeFacts(xlib.Parse("src/core/state.go"), xlib.Parse("src/build/build_step.go"))))
 	// the initial value of numPending and the sizes of the task queues
 	{
 		var facts []string
